@@ -155,7 +155,9 @@ impl Binomial {
                 let s = p / q;
                 Method::Binv(
                     Binv {
-                        r: q.powf(n as f64),
+                        // `(1 - p)^n` via `ln_1p`: forming `q = 1 - p` first loses up to
+                        // `epsilon / p` of relative precision, which `^n` amplifies.
+                        r: (n as f64 * (-p).ln_1p()).exp(),
                         s,
                         a: (n as f64 + 1.0) * s,
                         n,
